@@ -18,8 +18,9 @@
 (* q = order quantity, s = the bundle (side, price, kind, time-in-force).  *)
 (*                                                                         *)
 (* Every point the property leaves open is a set-valued choice (DESIGN     *)
-(* 5.4): equal timestamps (keep or replace) and a stale open report with   *)
-(* nothing left to fill (ignore or untrack).                               *)
+(* 5.4): equal timestamps (keep or replace the held data) and a strictly   *)
+(* OLDER open report with nothing left to fill (ignore or untrack).  A     *)
+(* report that is not older and has nothing left to fill always untracks.  *)
 (***************************************************************************)
 EXTENDS Naturals, FiniteSets, TLC
 
@@ -88,7 +89,9 @@ SnapOpen(cur, e) ==
        [] cur.k = "OIF"  -> IF Full(e) THEN {U} ELSE {updO}
        [] OTHER          -> \* Open or CIF
             IF Newer(cur.m, e.m)    THEN (IF Full(e) THEN {U} ELSE {upd})
-            ELSE IF Tie(cur.m, e.m) THEN (IF Full(e) THEN {U, cur} ELSE {upd, cur})
+            \* equal timestamps: keeping or replacing the held data are both allowed, but a report that
+            \* is not older and has nothing left to fill ends the order
+            ELSE IF Tie(cur.m, e.m) THEN (IF Full(e) THEN {U} ELSE {upd, cur})
             ELSE                         (IF Full(e) THEN {cur, U} ELSE {cur})
 
 SnapCIF(cur, e) ==
@@ -145,8 +148,9 @@ Spec == Init /\ [][Next]_vars
 (***************************************************************************)
 TypeOK == orders \in [CID -> OrderStates]
 
-\* an open report is "accepted" when it is not older than what is held
+\* an open report is "accepted" when it is newer than what is held
 Accepted(cur, e) == ~Tracked(cur) \/ cur.k = "OIF" \/ Newer(cur.m, e.m)
+NotOlder(cur, e) == Accepted(cur, e) \/ Tie(cur.m, e.m)
 
 \* becomes tracked: a sent request, or an accepted open report with something left to fill
 BecomesA == ( LET e == last' IN
@@ -159,7 +163,7 @@ BecomesA == ( LET e == last' IN
 \* a failed cancel restores the last confirmed open state
 StopsA == ( LET e == last' cur == orders[e.c] IN
       /\ (e.a = "Snap" /\ e.k = "Inactive" => ~Tracked(orders'[e.c]))
-      /\ (e.a = "Snap" /\ e.k = "Open" /\ Full(e) /\ Accepted(cur, e) => ~Tracked(orders'[e.c]))
+      /\ (e.a = "Snap" /\ e.k = "Open" /\ Full(e) /\ NotOlder(cur, e) => ~Tracked(orders'[e.c]))
       /\ (e.a = "CancelResp" /\ e.ok => ~Tracked(orders'[e.c]))
       /\ (e.a = "CancelResp" /\ ~e.ok /\ cur.k = "CIF" =>
              IF cur.m.has THEN orders'[e.c] = [cur EXCEPT !.k = "Open"] ELSE ~Tracked(orders'[e.c]))
